@@ -7,9 +7,8 @@ package stagex
 // when either side restarts, and what happens in the source directory.
 
 import (
-	"syscall"
-	"encoding/json"
 	"bytes"
+	"encoding/json"
 	"errors"
 	"fmt"
 	"io"
@@ -20,6 +19,7 @@ import (
 	"sort"
 	"strings"
 	"sync"
+	"syscall"
 	"testing/synctest"
 	"time"
 
@@ -38,7 +38,7 @@ import (
 
 // transport fault kinds
 const (
-	XOK = iota
+	XOK         = iota
 	XRefuse     // not processed, error to the sender
 	XLostAnswer // fully processed, error to the sender
 	XPartial    // parts < k processed, Receive of part k fails -> (k, err)   (the 206 shape)
@@ -112,50 +112,53 @@ type Sim struct {
 
 	srcDir, cacheDir, sentDir string
 
-	mu       sync.Mutex
-	pending  []*req
-	seq      int
-	gen      int
-	dead     map[int]bool
-	stopCh   chan bool
-	doneCh   chan bool
-	stopped  bool
-	broker   *client.Broker
-	sentLog  *log.FileIO
-	versions map[string][]*srcVersion
-	deleted  map[string]bool
-	wire     []wirePart
-	polls    []string
-	releases []releaseEvent
-	sentRecs []string
-	faults   int
-	faultKinds map[int]int
-	restartsS, restartsR int
-	nreq     int
-	ctr      int
-	lastPerturb time.Time
-	retransAllowed map[string]bool // name|hash -> a failed verdict / give-up / receiver restart allows sending again
-	bytesOnWire int64
-	others   map[string]int
-	told     []wirePart // parts the sender was told are on record (200, 206 count, recovery answer)
-	deferred []deferredViolation
-	asyncName string
-	tainted  map[string]bool
-	lastMtime map[string]time.Time
-	earliest map[string]time.Time
-	rejectedIno map[string]uint64
-	flipsAfterStop int
-	rejectedAt map[string]int // name|hash -> wire sequence number at which a complete but corrupt staged copy of that version was last seen
-	voidBefore map[string]int // name|hash -> acknowledgements up to this sequence number are void AND the sender has been told so (failed verdict)
-	pollMismatch map[string]bool
-	actions  int    // externally visible sender actions so far (all generations)
-	crashAt  int    // crash the sender when actions reaches this (0: never)
-	crashedAt string
-	needRestart bool
-	actionLog []string
-	listedAt map[int]map[string][]rng // sender generation -> (name|hash) -> ranges the receiver listed in the partials answer
-	heldAt   map[int]map[string]bool  // sender generation -> (name|hash) complete/validated/delivered at the receiver at that time
-	positivePolls map[string]bool     // name|hash -> a positive answer reached the sender
+	mu                      sync.Mutex
+	pending                 []*req
+	seq                     int
+	gen                     int
+	dead                    map[int]bool
+	stopCh                  chan bool
+	doneCh                  chan bool
+	stopped                 bool
+	broker                  *client.Broker
+	sentLog                 *log.FileIO
+	versions                map[string][]*srcVersion
+	deleted                 map[string]bool
+	wire                    []wirePart
+	polls                   []string
+	releases                []releaseEvent
+	sentRecs                []string
+	faults                  int
+	faultKinds              map[int]int
+	restartsS, restartsR    int
+	nreq                    int
+	ctr                     int
+	lastPerturb             time.Time
+	retransAllowed          map[string]bool // name|hash -> a failed verdict / give-up / receiver restart allows sending again
+	bytesOnWire             int64
+	others                  map[string]int
+	told                    []wirePart // parts the sender was told are on record (200, 206 count, recovery answer)
+	deferred                []deferredViolation
+	asyncName               string
+	tainted                 map[string]bool
+	lastMtime               map[string]time.Time
+	earliest                map[string]time.Time
+	rejectedIno             map[string]uint64
+	flipsAfterStop          int
+	rejectedAt              map[string]int // name|hash -> wire sequence number at which a complete but corrupt staged copy of that version was last seen
+	voidBefore              map[string]int // name|hash -> acknowledgements up to this sequence number are void AND the sender has been told so (failed verdict)
+	pollMismatch            map[string]bool
+	actions                 int    // externally visible sender actions so far (all generations)
+	crashAt                 int    // crash the sender when actions reaches this (0: never)
+	crashKind               string // aimed crash: label prefix of the action kind
+	crashNth, crashKindSeen int
+	crashAfter              bool // crash at the boundary after that action instead of before it
+	crashedAt               string
+	needRestart             bool
+	actionLog               []string
+	listedAt                map[int]map[string][]rng // sender generation -> (name|hash) -> ranges the receiver listed in the partials answer
+	heldAt                  map[int]map[string]bool  // sender generation -> (name|hash) complete/validated/delivered at the receiver at that time
+	positivePolls           map[string]bool          // name|hash -> a positive answer reached the sender
 }
 
 func NewSim(t *vt.T, prop string, conf SimConf) *Sim {
@@ -387,6 +390,17 @@ func (s *Sim) tick(gen int, label string) bool {
 	if len(s.actionLog) < 600 {
 		s.actionLog = append(s.actionLog, label)
 	}
+	if s.crashKind != "" && strings.HasPrefix(label, s.crashKind) {
+		// aimed crash: right before (or right after) the n-th action of one kind
+		s.crashKindSeen++
+		if s.crashKindSeen == s.crashNth {
+			s.crashKind = ""
+			s.crashAt = s.actions
+			if s.crashAfter {
+				s.crashAt = s.actions + 1
+			}
+		}
+	}
 	if s.crashAt > 0 && s.actions == s.crashAt {
 		s.dead[gen] = true
 		s.crashedAt = label
@@ -587,11 +601,14 @@ func (s *Sim) StartSender() {
 	}
 	s.sentLog = log.NewFileIO(s.sentDir, nil, nil, false)
 	s.broker = &client.Broker{Conf: &client.Conf{
-		Name:         "sim",
-		Store:        &recStore{Local: st, s: s, gen: gen},
-		Cache:        &recCache{JSON: cj, s: s, gen: gen},
-		Queue:        queue.NewTagged(qtags, tagger, grouper),
-		Recoverer:    func() ([]*sts.Partial, error) { r := s.post(&req{gen: gen, kind: "partials"}); return r.partials, r.err },
+		Name:  "sim",
+		Store: &recStore{Local: st, s: s, gen: gen},
+		Cache: &recCache{JSON: cj, s: s, gen: gen},
+		Queue: queue.NewTagged(qtags, tagger, grouper),
+		Recoverer: func() ([]*sts.Partial, error) {
+			r := s.post(&req{gen: gen, kind: "partials"})
+			return r.partials, r.err
+		},
 		BuildPayload: payload.NewBin,
 		Transmitter: func(p sts.Payload) (int, error) {
 			r := s.post(&req{gen: gen, kind: "data", pl: p, desc: describe(p)})
